@@ -376,6 +376,10 @@ class Repo:
                 tree = ast.parse(src, filename=rel)
             except SyntaxError as e:
                 raise AnalysisError(f"cannot parse {rel}: {e}")
+            if os.environ.get("TLSA_NO_LIFT") != "1":
+                from .normalise import lambda_lift
+
+                lambda_lift(tree)
             is_pkg = rel.endswith("/__init__.py")
             name = rel[:-3].replace("/", ".")
             if is_pkg:
